@@ -46,6 +46,50 @@ thread_local! {
     static WORKERS: Cell<usize> = const { Cell::new(4) };
     static STATS: RefCell<Stats> = RefCell::new(Stats { order_hash: FNV_OFFSET, ..Default::default() });
     static ITEM_BUDGET: Cell<u64> = const { Cell::new(u64::MAX) };
+    /// worker index per simulated task (keyed by shuttle's task id); sequential mode uses SEQ_TIDX
+    static TIDX: RefCell<std::collections::HashMap<shuttle::thread::ThreadId, usize>> = RefCell::new(std::collections::HashMap::new());
+    static SEQ_TIDX: Cell<Option<usize>> = const { Cell::new(None) };
+}
+
+/// Worker index of the calling task (see `rayon::current_thread_index`).
+pub fn thread_index() -> Option<usize> {
+    if mode() == Mode::Sequential {
+        return SEQ_TIDX.with(|c| c.get());
+    }
+    let id = shuttle::thread::current().id();
+    TIDX.with(|m| m.borrow().get(&id).copied())
+}
+
+/// Run `f` as pool worker `idx` (restores the previous index afterwards).
+pub(crate) fn with_thread_index<R>(idx: usize, f: impl FnOnce() -> R) -> R {
+    if mode() == Mode::Sequential {
+        let old = SEQ_TIDX.with(|c| c.replace(Some(idx)));
+        struct Restore(Option<usize>);
+        impl Drop for Restore {
+            fn drop(&mut self) {
+                SEQ_TIDX.with(|c| c.set(self.0));
+            }
+        }
+        let _r = Restore(old);
+        return f();
+    }
+    let id = shuttle::thread::current().id();
+    let old = TIDX.with(|m| m.borrow_mut().insert(id, idx));
+    struct Restore(shuttle::thread::ThreadId, Option<usize>);
+    impl Drop for Restore {
+        fn drop(&mut self) {
+            TIDX.with(|m| match self.1 {
+                Some(o) => {
+                    m.borrow_mut().insert(self.0, o);
+                }
+                None => {
+                    m.borrow_mut().remove(&self.0);
+                }
+            });
+        }
+    }
+    let _r = Restore(id, old);
+    f()
 }
 
 const FNV_OFFSET: u64 = 0xcbf29ce484222325;
@@ -77,6 +121,8 @@ pub fn set_item_budget(n: u64) {
 }
 /// Reset statistics (call before each execution).
 pub fn reset_stats() {
+    TIDX.with(|m| m.borrow_mut().clear());
+    SEQ_TIDX.with(|c| c.set(None));
     STATS.with(|s| {
         *s.borrow_mut() = Stats {
             order_hash: FNV_OFFSET,
